@@ -54,12 +54,22 @@ def _occ_holder(g):
 OCC_HOLDERS = dict((g, _occ_holder(g)) for g in OCC)
 
 
+class ParentM(ComplexModel):
+    __namespace__ = TNS
+    _type_info = [('m', Integer(min_occurs=1)), ('r', Integer(max_occurs=2))]
+
+
+class ChildM(ParentM):
+    __namespace__ = TNS
+    _type_info = [('z', Integer(min_occurs=1))]
+
+
 _ns = {}
-exec('def f(ctx, h, %s):\n    return h\n' % ', '.join('a%d' % i for i in range(len(OCC))), _ns)
+exec('def f(ctx, h, %s, inh):\n    return h\n' % ', '.join('a%d' % i for i in range(len(OCC))), _ns)
 
 
 class Svc(Service):
-    f = rpc(Holder, *[OCC_HOLDERS[g] for g in OCC], _returns=Holder)(_ns['f'])
+    f = rpc(Holder, *([OCC_HOLDERS[g] for g in OCC] + [ChildM]), _returns=Holder)(_ns['f'])
 
 
 APP = Application([Svc], TNS, in_protocol=XmlDocument(validator='soft'), out_protocol=XmlDocument())
@@ -252,3 +262,89 @@ def emitted_text_is_valid(sx, name):
     if sx.symbolic:
         return xsd_accepts_text(sx, decl, text)
     return lxml_accepts(name, [text])
+
+
+def _req_with(extra_name, extra_children_texts):
+    """<f> request with every mandatory argument filled minimally and the children of `extra_name` as given"""
+    from lxml import etree
+    f = etree.Element('{%s}f' % TNS, nsmap={None: TNS})
+    for j, gg in enumerate(OCC):
+        if gg[0] > 0:
+            a = etree.SubElement(f, '{%s}a%d' % (TNS, j))
+            for _ in range(gg[0]):
+                etree.SubElement(a, '{%s}x' % TNS).text = '1'
+    e = etree.SubElement(f, '{%s}%s' % (TNS, extra_name))
+    for tag, text in extra_children_texts:
+        etree.SubElement(e, '{%s}%s' % (TNS, tag)).text = text
+    return f
+
+
+@harness('C06', functions=FUNCS, bounds={'counts': 'inherited mandatory member 0..2 times, inherited max_occurs=2 member 0..3 '
+                                                    'times, own mandatory member 0..1 times (declared order, parents first)'})
+def schema_vs_soft_inherited(sx, p):
+    """occurrence constraints of inherited members are enforced alike by the schema (xs:extension) and by
+    soft validation"""
+    nm = sx.choose('n_m', [1, 0, 2])
+    nr = sx.choose('n_r', [0, 2, 3])
+    nz = sx.choose('n_z', [1, 0])
+    kids = [('m', '1')] * nm + [('r', '2')] * nr + [('z', '3')] * nz
+    out = run_soft(lambda: SOFT.from_element(CTX, ChildM, mk_element(sx, '{tns}inh', children=[
+        mk_element(sx, '{tns}' + t, text=x) for t, x in kids])))
+    sx.observe('soft', out.accepted)
+    if sx.symbolic:
+        dm, dr = member_decl('ParentM', 'm'), member_decl('ParentM', 'r')
+        dz = member_decl('ChildM', 'z')
+        x = (dm['minOccurs'] <= nm <= (dm['maxOccurs'] or 99)) and (dr['minOccurs'] <= nr <= (dr['maxOccurs'] or 99)) \
+            and (dz['minOccurs'] <= nz <= (dz['maxOccurs'] or 99))
+        return x == out.accepted
+    _, compiled = schema()
+    return compiled.validate(_req_with('inh', kids)) == out.accepted
+
+
+# ---------------------------------------------------------------- the schema compiles (multi-namespace universes)
+class ZooRecord(ComplexModel):
+    __namespace__ = 'urn:zoo'
+    name = Unicode
+    legs = Integer
+
+
+class FarmRecord(ComplexModel):
+    __namespace__ = 'urn:farm'
+    rec = ZooRecord
+    tag = Unicode
+
+
+class LocalRecord(ComplexModel):
+    __namespace__ = TNS
+    n = Integer
+
+
+IN_TYPES = {'primitive': Integer, 'foreign': ZooRecord, 'local': LocalRecord, 'nested-foreign': FarmRecord}
+OUT_TYPES = {'primitive': Unicode, 'foreign': ZooRecord, 'local': LocalRecord, 'nested-foreign': FarmRecord}
+_COMPILED = {}
+
+
+@harness('C06', params=[(style, i, o) for style in ('wrapped', 'bare', 'out_bare') for i in sorted(IN_TYPES) for o in sorted(OUT_TYPES)],
+         label=lambda p: '%s in=%s out=%s' % p,
+         functions=['spyne.interface._base.Interface.add_method', 'spyne.interface._base.Interface.add_class',
+                    'spyne.interface.xml_schema._base.XmlSchema.build_schema_nodes',
+                    'spyne.interface.xml_schema._base.XmlSchema.build_validation_schema'],
+         bounds={'universes': '3 body styles x 4 argument kinds x 4 return kinds over three namespaces (concrete programs; '
+                              'this harness is an enumeration of universes, there is no symbolic input)'})
+def schema_compiles(sx, p):
+    """for every listed application the generated schema set compiles (every referenced namespace is imported)"""
+    style, i, o = p
+    from spyne.protocol.soap import Soap11
+    kw = {} if style == 'wrapped' else {'_body_style': style}
+
+    class S(Service):
+        @rpc(IN_TYPES[i], _returns=OUT_TYPES[o], **kw)
+        def op(ctx, a):
+            return None
+    try:
+        app = Application([S], TNS, in_protocol=Soap11(), out_protocol=Soap11(), name='App_%s_%s_%s' % p)
+    except Exception as e:
+        sx.outside('application rejected at construction: %s' % type(e).__name__)
+    xs = XmlSchema(app.interface)
+    xs.build_validation_schema()
+    return xs.validation_schema is not None
